@@ -46,7 +46,7 @@ def pyv(v):
 def values(limit):
     vs = [["int", z] for z in (-3, -1, 0, 1, 2, limit, limit + 1, limit + 5)]
     vs += [["npint", z] for z in (-2, 0, 1, limit, limit + 2)]
-    vs += [["float"], ["str"], ["none"], ["list"]]
+    vs += [["float"], ["float", 1], ["float", limit], ["str"], ["none"], ["list"]]
     return vs
 
 
